@@ -276,6 +276,41 @@ def check_case(case, rec):
             if cgr.center_atoms or '>' in cs:
                 rec.fail('cgr-identity', f'{label}: identical sides but centre {cgr.center_atoms} / string {cs!r}')
                 return
+    # ---- mutators that change the roles must leave no stale reaction-level cache: after contract_ions() / remove_reagents() on a
+    # reaction whose string, hash and layout were computed before, the string must be that of a fresh reaction with the same roles
+    for op in ('contract_ions', 'remove_reagents'):
+        w = rxn.copy()
+        try:
+            w.fix_positions()
+            str(w), hash(w)
+            try:
+                str(~w)
+            except Exception:
+                pass
+            try:
+                changed = getattr(w, op)()
+            except ValueError:  # documented refusals (MappingError: no reaction centre, empty roles ...)
+                if op != 'remove_reagents':
+                    rec.count(f'mutator:{op}:refused')
+                    continue
+                try:
+                    changed = w.remove_reagents(mapping=False)
+                except ValueError:
+                    rec.count(f'mutator:{op}:refused')
+                    continue
+        except Exception as e:
+            from ..core import chython_frame
+            fr = chython_frame(e.__traceback__)
+            if fr == 'outside-chython':
+                raise
+            rec.fail('mutator', f'{label}: {op}() raised {type(e).__name__}: {e}', sig=f'{op}:{type(e).__name__}@{fr}')
+            return
+        fresh = ReactionContainer([x.copy() for x in w.reactants], [x.copy() for x in w.products], [x.copy() for x in w.reagents])
+        rec.count(f'mutator:{op}{":changed" if changed else ""}')
+        if str(w) != str(fresh) or (w == fresh) is False or hash(w) != hash(fresh):
+            rec.fail('stale-reaction-cache', f'{label}: after {op}() str() gives {str(w)!r}, a fresh reaction with the same roles '
+                                             f'{str(fresh)!r}', sig=op)
+            return
     rec.sample('reaction', format(rxn, 'm'), cap=6)
 
 
